@@ -25,11 +25,17 @@ mkdir -p $here/seeded/$tag
 cp $src/seed.patch $here/seeded/$tag/patch.diff
 rm -rf $here/seeded/$tag/seeddemo; cp -r $src/seeddemo $here/seeded/$tag/seeddemo
 cp $src/SEED_META.md $here/seeded/$tag/AGENT_NOTES.md 2>/dev/null
-# run the check against the change in /repo itself, then undo
-if [ -n "$(git -C /repo status --porcelain)" ]; then echo "/repo is not clean"; exit 5; fi
-git -C /repo apply $here/seeded/$tag/patch.diff
-q=$(cd $here && VERIF_NOEVIDENCE=1 ./verif check $id quick > /tmp/sv-$tag.check.log 2>&1; echo $?)
-git -C /repo checkout -- . ; git -C /repo clean -fdq -- . 2>/dev/null
+# run the check against the change in /repo itself, then undo; with SCRATCH=1 (another run is
+# building from /repo at the same time) the check runs against the scratch worktree instead
+if [ -n "${SCRATCH:-}" ]; then
+  rm -rf $wt/seeddemo
+  q=$(cd $here && VERIF_REPO=$wt VERIF_NOEVIDENCE=1 ./verif check $id quick > /tmp/sv-$tag.check.log 2>&1; echo $?)
+else
+  if [ -n "$(git -C /repo status --porcelain)" ]; then echo "/repo is not clean"; exit 5; fi
+  git -C /repo apply $here/seeded/$tag/patch.diff
+  q=$(cd $here && VERIF_NOEVIDENCE=1 ./verif check $id quick > /tmp/sv-$tag.check.log 2>&1; echo $?)
+  git -C /repo checkout -- . ; git -C /repo clean -fdq -- . 2>/dev/null
+fi
 echo "check $id quick against the seeded change: exit=$q"
 grep -m3 -E "^(VIOLATION|INCONCLUSIVE|OK)" /tmp/sv-$tag.check.log
 grep -m1 -A3 "^  test=" /tmp/sv-$tag.check.log | cut -c1-400
